@@ -3,7 +3,7 @@
    byte length incl. ragged tails, per-byte-distinct contents); each step performs one access
    (len / is_empty / get(i) / iter / into_iter) and appends it to the script.  The coherence
    invariant holds in every state; finished scripts are emitted with the predicted results. *)
-EXTENDS Parse, Abi, Json
+EXTENDS Parse, Abi, Iter, Json
 CONSTANTS ScriptLen, TableTypes
 
 ES == {"LE", "AnyB"}
@@ -34,10 +34,23 @@ N == TblLen(t.ty, t.class, Buf)
 Idx == {W8(i) : i \in 0..(N + 2)} \cup {MaxW, MaxDiv(SizeFor(t.ty, t.class))}
 Ops == {<<"len">>, <<"empty">>, <<"iter">>, <<"into_iter">>} \cup {<<"get", i>> : i \in Idx}
 
-Step(o) == /\ Len(script) < ScriptLen
+\* walks (Iter.tla): the provided Iterator methods on one iterator object of the table
+Z8 == W8(0)
+Prefixes == { <<>>, << <<"next", Z8>> >>, << <<"next", Z8>>, <<"next", Z8>> >>, << <<"nth", W8(0)>> >>,
+              << <<"nth", W8(1)>> >>, << <<"nth", W8(2)>> >>, << <<"next", Z8>>, <<"nth", W8(1)>> >>,
+              << <<"nth", W8(1)>>, <<"next", Z8>> >>, << <<"nth", W8(1)>>, <<"nth", W8(0)>> >> }
+Finals == { <<"rest", Z8>>, <<"fold", Z8>>, <<"count", Z8>>, <<"last", Z8>>, <<"nth", MaxW>> }
+          \cup { <<"skip", k>> : k \in {W8(0), W8(1), W8(2), MaxW} }
+          \cup { <<"step_by", k>> : k \in {W8(1), W8(2), W8(3), MaxW} }
+WalkOps == { <<"walk", p \o <<f>>, "iter">> : p \in Prefixes, f \in Finals }
+           \cup { <<"walk", p \o <<f>>, "into_iter">> : p \in {<<>>, << <<"nth", W8(1)>> >>}, f \in Finals }
+IsWalk(sc) == Len(sc) = 1 /\ sc[1][1] = "walk"
+
+Step(o) == /\ Len(script) < ScriptLen /\ ~IsWalk(script)
            /\ script' = Append(script, o)
            /\ UNCHANGED t
-Next == \E o \in Ops : Step(o)
+Next == \/ \E o \in Ops : Step(o)
+        \/ script = <<>> /\ \E o \in WalkOps : script' = <<o>> /\ UNCHANGED t
 
 Get(iW) == TblGet(t.ty, t.class, IsLittle(t.es), Buf, iW)
 Items == IterAll(t.ty, t.class, IsLittle(t.es), Buf)
@@ -57,10 +70,22 @@ ExpOf(o) ==
       [] o[1] = "empty" -> [out |-> "ok", b |-> (N = 0)]
       [] o[1] = "get" -> (LET r == Get(o[2]) IN IF r.ok THEN [out |-> "ok", f |-> Pub(r.f)] ELSE [out |-> "err"])
       [] o[1] \in {"iter", "into_iter"} -> [out |-> "ok", n |-> N, items |-> [i \in 1..N |-> Pub(Items[i])]]
+      [] o[1] = "walk" -> (LET At(i) == Pub(Items[i]) IN [out |-> "ok", obs |-> WalkObs(At, N, o[2])])
 
-Emit == IF Len(script) = ScriptLen
+\* the walk model agrees with plain iteration: draining after any prefix yields the remaining items,
+\* and count() says how many those are
+Prop_Walk ==
+    \A p \in Prefixes :
+        LET At(i) == Items[i]
+            a == WalkObs(At, N, p \o << <<"rest", Z8>> >>)
+            c == WalkObs(At, N, p \o << <<"count", Z8>> >>)
+        IN Len(a) = Len(p) + 1 =>                       \* (the prefix did not run off the end)
+             /\ c[Len(c)].n = W8(Len(a[Len(a)].items))
+             /\ a[Len(a)].items = SubSeq(Items, N - Len(a[Len(a)].items) + 1, N)
+
+Emit == IF Len(script) = ScriptLen \/ IsWalk(script)
         THEN PrintT(ToJson([op |-> "tbl", ty |-> t.ty, class |-> t.class, es |-> t.es, buf |-> Buf,
                             script |-> script, exp |-> [i \in 1..Len(script) |-> ExpOf(script[i])]]))
         ELSE TRUE
-Inv == Prop_C09 /\ Emit
+Inv == (script = <<>> => Prop_C09 /\ Prop_Walk) /\ Emit      \* the properties depend on the table only
 =============================================================================
